@@ -57,7 +57,7 @@ Mboxes(w) == {m \in [f : {"b", "n"}, lp : LPs, fq : BOOLEAN, dom : Doms, ph : 0.
                 /\ (PendingExcluded => ~Pending(m))}
 Small == Mboxes(W2)
 Items(w) == {[k |-> "m", m |-> m, sep |-> s] : m \in Mboxes(w), s \in {"c", "n"}}
-            \cup {[k |-> "g", ms |-> ms, sep |-> "c"] : ms \in {<<>>} \cup {<<m>> : m \in Small} \cup {<<m1, m2>> : m1 \in Small, m2 \in Mboxes(0)}}
+            \cup {[k |-> "g", ms |-> ms, sep |-> "c"] : ms \in {<<>>} \cup {<<m>> : m \in Small} \cup {<<m1, m2>> : m1 \in Mboxes(0), m2 \in Mboxes(0)}}
 I1 == Items(W1)
 I2 == Items(W2)
 \* a comma may be missing only between two bare addr-specs
@@ -101,8 +101,12 @@ Render(toks, lo) == Flat([i \in 1..Len(toks) |->
 (* the machine                                                             *)
 (***************************************************************************)
 Idle == [st |-> "idle"]
-Init == list = <<>> /\ ci \in 1..Len(Cfgs) /\ loose \in BOOLEAN /\ al = Idle
+\* spacing style tied to the configuration (lexing does not depend on the configuration)
+Init == list = <<>> /\ ci \in 1..Len(Cfgs) /\ loose = (ci = 2) /\ al = Idle
+\* longer lists are built on small items only (what matters there is how neighbouring items interact)
+ItemWeight(it) == IF it.k = "m" THEN Weight(it.m) ELSE 0
 AddItem == /\ al = Idle /\ Len(list) < MaxItems
+           /\ \A k \in 1..Len(list) : ItemWeight(list[k]) <= W2
            /\ \E it \in (IF list = <<>> THEN I1 ELSE I2) : SepOk(list, it) /\ list' = Append(list, it)
            /\ UNCHANGED <<ci, loose, al>>
 Start == /\ al = Idle
@@ -115,7 +119,7 @@ Next == AddItem \/ Start \/ Step
 Spec == Init /\ [][Next]_<<list, ci, loose, al>>
 
 Field == [name |-> "to", items |-> list]
-Rendered == LET l == Lex822(Render(ListToks(list), loose)) IN l.ok /\ l.toks = ListToks(list)
+Rendered == al = Idle => LET l == Lex822(Render(ListToks(list), loose)) IN l.ok /\ l.toks = ListToks(list)
 Parses == al # Idle => al.st # "fail"
 EnvelopeListed == (al # Idle /\ al.st = "done") => BagOf(al.got) = BagOf(FieldBoxes(Field, Cfgs[ci]))
 RewrittenSame ==
